@@ -25,6 +25,7 @@
 #ifndef PHQ_PLANAR_DIRECTION_HPP
 #define PHQ_PLANAR_DIRECTION_HPP
 
+#include <algorithm>
 #include <array>
 #include <cmath>
 #include <cstddef>
@@ -422,17 +423,20 @@ inline Angle<NumericType> PlanarVector<NumericType>::Angle(
 template <typename NumericType>
 inline Angle<NumericType>::Angle(const PlanarVector<NumericType>& planar_vector,
                                  const PlanarDirection<NumericType>& planar_direction)
-  : Angle(std::acos(planar_vector.Dot(planar_direction) / planar_vector.Magnitude())) {}
+  : Angle(std::acos(std::clamp(planar_vector.Dot(planar_direction) / planar_vector.Magnitude(),
+                               static_cast<NumericType>(-1), static_cast<NumericType>(1)))) {}
 
 template <typename NumericType>
 inline Angle<NumericType>::Angle(const PlanarDirection<NumericType>& planar_direction,
                                  const PlanarVector<NumericType>& planar_vector)
-  : Angle(std::acos(planar_direction.Dot(planar_vector) / planar_vector.Magnitude())) {}
+  : Angle(std::acos(std::clamp(planar_direction.Dot(planar_vector) / planar_vector.Magnitude(),
+                               static_cast<NumericType>(-1), static_cast<NumericType>(1)))) {}
 
 template <typename NumericType>
 inline Angle<NumericType>::Angle(const PlanarDirection<NumericType>& planar_direction_1,
                                  const PlanarDirection<NumericType>& planar_direction_2)
-  : Angle(std::acos(planar_direction_1.Dot(planar_direction_2))) {}
+  : Angle(std::acos(std::clamp(planar_direction_1.Dot(planar_direction_2),
+                               static_cast<NumericType>(-1), static_cast<NumericType>(1)))) {}
 
 }  // namespace PhQ
 
